@@ -194,7 +194,11 @@ func PercentEncode(s string, upper bool) string {
 	var b strings.Builder
 	for i := 0; i < len(s); i++ {
 		c := s[i]
-		if c < 0x20 || c > 0x7e || c == '%' {
+		// Any byte may be escaped. Blanks at either end are escaped because
+		// HTTP/1-style header blocks (HTTP/1.1 trailers, the gRPC-Web trailer
+		// frame) strip optional whitespace around field values.
+		edgeBlank := (c == ' ') && (i == 0 || i == len(s)-1)
+		if c < 0x20 || c > 0x7e || c == '%' || edgeBlank {
 			if upper {
 				fmt.Fprintf(&b, "%%%02X", c)
 			} else {
